@@ -3,6 +3,7 @@ package PKGNAME
 // C11: the status reporter against the documented state diagram (docs/component-status.md).
 
 import (
+	"errors"
 	"sync"
 
 	"go.opentelemetry.io/collector/component/componentstatus"
@@ -45,6 +46,21 @@ func vc11Legal(c, e vS) bool {
 	return false
 }
 
+var vc11Errs = []error{nil, errors.New("first cause"), errors.New("another cause")}
+
+// vc11Event builds an event of status st; the error statuses carry the k-th error (nil, or one of two causes).
+func vc11Event(st vS, k int) *componentstatus.Event {
+	switch st {
+	case vRecov:
+		return componentstatus.NewRecoverableErrorEvent(vc11Errs[k])
+	case vPerm:
+		return componentstatus.NewPermanentErrorEvent(vc11Errs[k])
+	case vFatal:
+		return componentstatus.NewFatalErrorEvent(vc11Errs[k])
+	}
+	return componentstatus.NewEvent(st)
+}
+
 // VerifC11Step: one report from an arbitrary current state (both over the whole int32 range).
 func VerifC11Step() {
 	var events []vS
@@ -57,7 +73,8 @@ func VerifC11Step() {
 	c := vS(vNondetInt32("current"))
 	e := vS(vNondetInt32("reported"))
 	vAssume(c >= vNone && c <= vStoppedSt) // the machine is only ever in one of its eight states
-	rep.componentFSM(id).current = componentstatus.NewEvent(c)
+	// error statuses carry an error; whether a report is a transition never depends on which one
+	rep.componentFSM(id).current = vc11Event(c, vChoice("current-error", 2))
 
 	auto := vNondetBool("report-ok-if-starting")
 	if auto {
@@ -73,7 +90,7 @@ func VerifC11Step() {
 		vReach("auto-ok")
 		return
 	}
-	rep.ReportStatus(id, componentstatus.NewEvent(e))
+	rep.ReportStatus(id, vc11Event(e, vChoice("reported-error", 3)))
 	if vc11Legal(c, e) {
 		vAssert(len(events) == 1 && events[0] == e, "legal-report/one-event-with-the-reported-status")
 		vAssert(rep.componentFSM(id).current.Status() == e, "legal-report/state-updated")
